@@ -78,6 +78,25 @@ CHECKS = {
              'under the scheduler; process servlets/executors not run; asyncgen GC finalisation not exercised. Requires '
              'fixes F1 and F7a (fixes/): on the unrepaired tree the check reports the violations with replays.',
         ref='§5 C16', engine='E2-vloop+E1-detsched+lean'),
+    'C19': dict(
+        technique='Lean 4 proof (inductive invariant with history variables over a timed LTS model of EagerBatcher.__iter__) + timed trace refinement against the real code under a virtual clock',
+        text='Theorems C19_partition / _partition_done / _partition_waiting / _batch_sizes (the batches are consecutive, 1..batch_size '
+             'long, and concatenate to exactly the items that arrived before the end marker), C19_short_only_if / _forever / _detect '
+             '(a short batch is handed out only right after the end marker was taken, or at clock >= t_first + wait with every arrival '
+             'stamped before t_first + wait already delivered; exactly at t_first + wait under zero processing time), C19_no_delay / '
+             '_timeout_exact / _tick_only_when_blocked / _no_stall (no time passes between noticing and yielding; the timed get is '
+             'never overslept; the batcher is never stuck), C19_waits_no_longer_than_told, C19_never_spins and C19_closed_form (for '
+             'tie-free runs the batches and hand-over clocks are the greedy grouping of the take-stamped sequence) hold for every interleaving of arrivals, time and batcher/consumer steps, '
+             'every batch_size >= 1, wait >= 0 and end marker (default None or custom with == semantics). The model is tied to the '
+             'current /repo on every run: the real EagerBatcher is fed through a queue.Queue by a producer thread at generated dyadic '
+             'virtual times (incl. deliberate ties, consumer holds, lazy time), its timed events (arrive/take/emit/resume/stop) are '
+             'validated against the model by the Lean driver (validator soundness proved; the Empty time-out is the only inferred '
+             'step), and a monitor evaluates the property on the event clocks of each run.',
+        note=E1 + 'no-delay is proved and checked under zero processing time (virtual time advances only while all threads are blocked); '
+                  'partition and short-only-if also with time passing at any moment; t_first is the clock at which the batcher '
+                  'obtains the first item; multiprocessing queues as instream only through the theorem (queue assumptions); every '
+                  'run self-tests that all clocks the code reads are virtual.',
+        ref='§5 C19', engine='E1-detsched+lean'),
 }
 
 CHECKS['C06'] = dict(
